@@ -51,9 +51,9 @@ pub mod time {
         #[verifier::external_body]
         pub fn as_millis(&self) -> (r: u128) ensures r == self@ / 1_000_000 { unimplemented!() }
         #[verifier::external_body]
-        pub const fn from_millis(ms: u64) -> (r: Duration) ensures r@ == ms as int * 1_000_000 { unimplemented!() }
+        pub const fn from_millis(ms: u64) -> (r: Duration) ensures r@ == ms as int * 1_000_000 { Duration { ns: ms as u128 * 1_000_000 } }
         #[verifier::external_body]
-        pub const fn from_secs(s: u64) -> (r: Duration) ensures r@ == s as int * 1_000_000_000 { unimplemented!() }
+        pub const fn from_secs(s: u64) -> (r: Duration) ensures r@ == s as int * 1_000_000_000 { Duration { ns: s as u128 * 1_000_000_000 } }
     }
 
     impl core::ops::Mul<u32> for Duration {
